@@ -248,7 +248,7 @@ func safeNormalize(v interface{}) (res interface{}, err error, pan string) {
 }
 
 func streamC18(c *Ctx) {
-	c.Rule = "Go values built by reflection from descriptors shared with the Lean driver: every integer width (incl. a defined type), float32/64, pointers of depth 0-3 incl. nil and pointers to times, slices, arrays, typed slices, maps with string and non-string keys, structs from reflect.StructOf with clover tags (rename, omitempty) and a declared family with embedded structs / unexported fields, unsupported kinds (chan, func, complex): Normalize of the real code vs Lean normalize, idempotence (normalising the result again), Set/Get/Has on dotted paths vs the model, unsupported values leave the document unchanged, struct -> document -> struct round trips (incl. swapped tags). " +
+	c.Rule = "Go values built by reflection from descriptors shared with the Lean driver: every integer width (incl. a defined type), float32/64, pointers of depth 0-3 incl. nil and pointers to times, slices, arrays, typed slices, maps with string and non-string keys, structs from reflect.StructOf with clover tags (rename, omitempty) and a declared family with embedded structs / unexported fields, unsupported kinds (chan, func, complex): Normalize of the real code vs Lean normalize, idempotence (normalising the result again), Set/Get/Has on dotted paths vs the model (also on documents of any shape whose top-level keys contain dots: same-path and unrelated-path laws), unsupported values leave the document unchanged, struct -> document -> struct round trips (incl. swapped tags). " +
 		"non-trivial = distinct descriptors of depth >= 1"
 	dr := StartDriver(c.DriverBin)
 	defer dr.Close()
@@ -316,6 +316,9 @@ func streamC18(c *Ctx) {
 		}
 	}
 	if !c18Rename(c, dr, g) {
+		return
+	}
+	if !c18Paths(c, dr, g) {
 		return
 	}
 	// the declared family: embedded flattening, unexported fields, round trips
@@ -642,4 +645,123 @@ func copyJSONMap(m map[string]interface{}) map[string]interface{} {
 		}
 	}
 	return out
+}
+
+// ---- dotted paths on documents of any shape: Set / Get / Has laws and the model ----
+
+var pathPool = []string{"a", "a.b", "a.b.c", "n", "n.x", "n.x.y", "keep", "keep.z", "b", "a.c", "k.", ".k", "", "a..b", "n.x.y.z"}
+
+func genPathValue(g *Gen, depth int) interface{} {
+	if depth > 0 && g.pick(3) == 0 {
+		m := map[string]interface{}{}
+		for i := 0; i < g.pick(3); i++ {
+			// keys of nested maps: single segments and, now and then, a dotted text (a key, not a path)
+			k := []string{"b", "c", "x", "y", "z", "b.c", "x.y", ""}[g.pick(8)]
+			m[k] = genPathValue(g, depth-1)
+		}
+		return m
+	}
+	switch g.pick(5) {
+	case 0:
+		return nil
+	case 1:
+		return "s" + strconv.Itoa(g.pick(4))
+	case 2:
+		return []interface{}{int64(g.pick(3)), "e"}
+	}
+	return int64(g.pick(100))
+}
+
+func unrelatedPaths(p, q string) bool {
+	ps, qs := strings.Split(p, "."), strings.Split(q, ".")
+	n := len(ps)
+	if len(qs) < n {
+		n = len(qs)
+	}
+	for i := 0; i < n; i++ {
+		if ps[i] != qs[i] {
+			return true
+		}
+	}
+	return false // one is a prefix of the other
+}
+
+// c18Paths: documents built by NewDocumentOf from maps whose TOP-LEVEL keys may themselves contain dots (a struct tag
+// or an imported file puts them there; Set never does), then a few assignments; after each one
+//
+//	same:   Has(p) and Get(p) = the normalised value        (Props/C18.get_set_same)
+//	other:  Get(q)/Has(q) unchanged for every q of the pool that is not prefix-related to p   (get_set_other)
+//
+// on the implementation, and the whole document and every pool path against the model.
+func c18Paths(c *Ctx, dr *Driver, g *Gen) bool {
+	n := c.N(2500, 40000)
+	modelOff := false // search mode: after a broken correspondence only the two laws are checked, on the implementation
+	for i := 0; i < n; i++ {
+		m := map[string]interface{}{}
+		for k := 0; k < g.pick(5); k++ {
+			m[pathPool[g.pick(len(pathPool))]] = genPathValue(g, 2)
+		}
+		doc := d.NewDocumentOf(m)
+		if doc == nil {
+			c.Violation(&Replay{Stream: "paths", Case: []interface{}{J{"k": "path", "doc": encDoc(m)}}, Note: "NewDocumentOf refused a map of canonical values"})
+			return false
+		}
+		c.Evals++
+		readAll := func() []string {
+			out := make([]string, len(pathPool))
+			for j, q := range pathPool {
+				out[j] = b01(doc.Has(q)) + " " + canonValue(doc.Get(q))
+			}
+			return out
+		}
+		steps := []interface{}{J{"k": "path", "doc": encDoc(m)}}
+		for st := 0; st < 1+g.pick(4); st++ {
+			p := pathPool[g.pick(len(pathPool))]
+			v := genPathValue(g, 2)
+			beforeDoc := encDoc(doc.AsMap())
+			before := readAll()
+			doc.Set(p, v)
+			steps = append(steps, J{"set": p, "v": encValue(v)})
+			after := readAll()
+			c.Count("path-depth:" + strconv.Itoa(len(strings.Split(p, "."))))
+			if !doc.Has(p) || canonValue(doc.Get(p)) != canonValue(v) {
+				c.Violation(&Replay{Stream: "paths", Case: steps, Expected: []string{"1 " + canonValue(v)}, Actual: []string{b01(doc.Has(p)) + " " + canonValue(doc.Get(p))},
+					Note: "Get/Has do not agree with Set on path " + strconv.Quote(p)})
+				return false
+			}
+			for j, q := range pathPool {
+				if unrelatedPaths(p, q) && before[j] != after[j] {
+					c.Violation(&Replay{Stream: "paths", Case: steps, Expected: []string{before[j]}, Actual: []string{after[j]},
+						Note: "Set on " + strconv.Quote(p) + " changed what Get/Has answer on the unrelated path " + strconv.Quote(q)})
+					return false
+				}
+			}
+			// the model: the assignment and every read
+			if modelOff {
+				continue
+			}
+			line := J{"k": "path", "doc": beforeDoc, "path": hx(p), "v": encValue(v)}
+			if pm := dr.Ask(line); pm != canonDoc(doc.AsMap()) {
+				c.Unexplained(&Replay{Stream: "paths", Case: []interface{}{line}, Expected: []string{pm}, Actual: []string{canonDoc(doc.AsMap())}}, "correspondence K-C18/set")
+				modelOff = true
+				continue
+			}
+			afterDoc := encDoc(doc.AsMap())
+			for j, q := range pathPool {
+				if q != p && g.pick(4) != 0 {
+					continue // the model is asked about the assigned path and a random quarter of the pool
+				}
+				rl := J{"k": "path", "doc": afterDoc, "path": hx(q)}
+				if pm := dr.Ask(rl); pm != after[j] {
+					c.Unexplained(&Replay{Stream: "paths", Case: []interface{}{rl}, Expected: []string{pm}, Actual: []string{after[j]}}, "correspondence K-C18/get")
+					modelOff = true
+					break
+				}
+			}
+			if strings.Contains(p, ".") {
+				c.NonTrivial("path|" + p + "|" + canonDoc(doc.AsMap()))
+			}
+		}
+	}
+	return !modelOff
 }
